@@ -66,6 +66,11 @@ func NoteStall() { everStalled.Store(true) }
 // RunTasks runs the tasks to completion under a drawn schedule and returns the
 // schedule (task index per step, capped) and the panic value of each task.
 func (c *Ctx) RunTasks(label string, tasks []func(yield func())) (string, []interface{}) {
+	var expectedG atomic.Int64 // goroutines in the process while all live ones are the harness's own
+	expectedG.Store(-1)
+	baseG := int64(runtime.NumGoroutine())
+	timer := time.NewTimer(time.Hour)
+	defer timer.Stop()
 	ts := make([]*coTask, len(tasks))
 	for i := range tasks {
 		t := &coTask{resume: make(chan struct{}), yielded: make(chan struct{})}
@@ -84,7 +89,7 @@ func (c *Ctx) RunTasks(label string, tasks []func(yield func())) (string, []inte
 				t.yielded <- struct{}{}
 			}()
 			fn(func() {
-				if Goid() != t.gid {
+				if int64(runtime.NumGoroutine()) != expectedG.Load() && Goid() != t.gid {
 					return // a goroutine the code under test started: cannot be parked
 				}
 				t.yielded <- struct{}{}
@@ -144,10 +149,28 @@ func (c *Ctx) RunTasks(label string, tasks []func(yield func())) (string, []inte
 		if len(sched) < 96 {
 			sched = append(sched, byte('0'+i))
 		}
+		alive := 0
+		for _, t := range ts {
+			if !t.done {
+				alive++
+			}
+		}
+		if len(running) == 0 {
+			expectedG.Store(baseG + int64(alive))
+		} else {
+			expectedG.Store(-1)
+		}
+		if !timer.Stop() {
+			select {
+			case <-timer.C:
+			default:
+			}
+		}
+		timer.Reset(StallLimit())
 		ts[i].resume <- struct{}{}
 		select {
 		case <-ts[i].yielded:
-		case <-time.After(StallLimit()):
+		case <-timer.C:
 			NoteStall()
 			running = append(running, i)
 			c.Event("scheduler: task %d is blocked; letting another task run beside it (run no longer a function of the seed alone)", i)
